@@ -39,8 +39,23 @@
      returned: the one Close that did the closing must report exactly the value the model's AClose
      returned (kept in the replay state until its CLR comes; it is an error iff currentConn's Close
      failed), every other one found the conn closed and returns nil.  At the end of the log no
-     return value may be left unreported. *)
-From Hy Require Import lib.Harness model.C19_PortUnion model.C19_Hop.
+     return value may be left unreported.
+   * Receivers: the replay runs the extended machine of model/C19_Recv.v (hop LTS + one receiver
+     goroutine per socket).  A / T are turns of socket k's recvLoop and are rejected when the model's
+     receiver of that socket has returned.  X k is appended by the fake socket when its ReadFrom
+     reports the permanent "closed" error to its receiver: accepted only if the model's socket k is
+     closed (or is being closed by the section in progress) and its receiver still running; it is
+     the receiver's exit.  N k is appended by the injector when the whole system had come to rest
+     with a datagram still sitting in open socket k's buffer: nobody is reading that socket.  In
+     the model the receiver of an open socket is always running, and a running receiver is either
+     in ReadFrom or parked in the send of a timeout error on a FULL queue: an N record for an open
+     socket while the model's queue has room is rejected (so is, by the rule for X, a receiver that
+     quietly returned after an overflow: the socket's later datagrams produce N).  At the end of the
+     log every socket is closed and the receiver of every closed socket must have exited (one X per socket).
+   * EAs k p n stands for n consecutive records A k p, A k (p+1), ...; ERs rid p n for n consecutive
+     pairs RS rid, R rid (pkt p); RS (rid+1), R (rid+1) (pkt (p+1)); ...  (overflow histories hold
+     thousands of them). *)
+From Hy Require Import lib.Harness gen.ParamsC19 model.C19_PortUnion model.C19_Hop model.C19_Recv.
 From Coq Require Import ZArith Bool.
 Local Open Scope N_scope.
 
@@ -82,7 +97,11 @@ Inductive ev :=
 | ESN (prev : option nat) (cur : nat) (idx : nat) (closed : bool) (qlen : option nat) (nopen : nat)
 | EHN
 | ECL2
-| ECR (err : bool).              (* a Close started before any Close had returned has returned err / nil *)
+| ECR (err : bool)               (* a Close started before any Close had returned has returned err / nil *)
+| EX (k : nat)                   (* socket k's ReadFrom reported "closed" to its receiver, which returns *)
+| EN (k : nat)                   (* at rest, a datagram sits in open socket k's buffer and nobody takes it *)
+| EAs (k : nat) (p : N) (n : nat)      (* n records EA k p, EA k (p+1), ... *)
+| ERs (rid : nat) (p : N) (n : nat).   (* n pairs ERS rid; ER rid (RPkt p), with rid and p counting up *)
 
 Inductive case :=
 | CPU (s : list byte) (exp : option (list range)) (np : N) (ph : N * N) (probe : list N) (cont : list bool)
@@ -123,10 +142,11 @@ Definition opt_nat_eqb (a b : option nat) : bool :=
 
 Definition count_open (l : list sock) : nat := length (filter s_open l).
 
-(* replay state: model state; the locked section in progress with the number of its boundary
-   calls already seen; whether the closing window (see above) is open; the value returned by the
-   Close that did the closing, until its caller's CLR record has been seen *)
-Definition rstate : Type := (st * option (action * nat) * bool * option ret)%type.
+(* replay state: state of the extended machine (hop LTS + receivers); the locked section in
+   progress with the number of its boundary calls already seen; whether the closing window (see
+   above) is open; the value returned by the Close that did the closing, until its caller's CLR
+   record has been seen *)
+Definition rstate : Type := (xst * option (action * nat) * bool * option ret)%type.
 
 Definition ret_of_outs (outs : list out) : option ret :=
   match filter (fun o => negb (locked_out o)) outs with
@@ -134,65 +154,82 @@ Definition ret_of_outs (outs : list out) : option ret :=
   | _ => None
   end.
 
-Definition locked (ps : list N) (ce : nat -> bool) (s : st) (pend : option (action * nat)) (cr : option ret)
+(* same receivers, new state of the hop LTS *)
+Definition reb (x : xst) (s : st) : xst := mkX s (alive x).
+
+Definition locked (ps : list N) (ce : nat -> bool) (x : xst) (pend : option (action * nat)) (cr : option ret)
                   (e : ev) (a0 : action) : option rstate :=
   let '(a, n) := match pend with Some an => an | None => (a0, O) end in
-  let '(s', outs) := step ps ce s a in
+  let '(x', outs) := xstep ps ce x (XAct a) in
   let em := filter locked_out outs in
   match nth_error em n with
   | Some o =>
       if ev_matches e o
       then Some (if Nat.eqb (S n) (length em)
-                 then if closed s' && negb (closed s)
-                      then (s', None, true, ret_of_outs outs)      (* last record of Close opens the window *)
-                      else (s', None, false, cr)
-                 else (s, Some (a, S n), false, cr))
+                 then if closed (base x') && negb (closed (base x))
+                      then (x', None, true, ret_of_outs outs)      (* last record of Close opens the window *)
+                      else (x', None, false, cr)
+                 else (x, Some (a, S n), false, cr))
       else None
   | None => None
   end.
 
-Definition unlocked_step (ps : list N) (ce : nat -> bool) (s : st) (a : action) (expect : list out) : option st :=
-  let '(s', outs) := step ps ce s a in
+Definition unlocked_step (ps : list N) (ce : nat -> bool) (x : xst) (a : action) (expect : list out) : option xst :=
+  let '(x', outs) := xstep ps ce x (XAct a) in
   match outs, expect with
-  | [], [] => Some s'
-  | [ORet r], [ORet r'] => if ret_eqb r r' then Some s' else None
+  | [], [] => Some x'
+  | [ORet r], [ORet r'] => if ret_eqb r r' then Some x' else None
   | _, _ => None
   end.
 
+(* socket k is closed, or the section in progress closes it *)
+Definition closed_or_closing (ps : list N) (ce : nat -> bool) (s : st) (pend : option (action * nat)) (k : nat) : bool :=
+  negb (sock_open (socks s) k) ||
+  match pend with Some (a, _) => negb (sock_open (socks (fst (step ps ce s a))) k) | None => false end.
+
 Definition rstep (ps : list N) (ce : nat -> bool) (rs : rstate) (e : ev) : option rstate :=
-  let '(s, pend, cw, cr) := rs in
+  let '(x, pend, cw, cr) := rs in
+  let s := base x in
   match e with
   | EL ok id r =>
       match pend with
       | Some _ => None                               (* a listen never comes inside another section *)
-      | None => if negb ok || Nat.eqb id (length (socks s)) then locked ps ce s pend cr e (AHop ok r) else None
+      | None => if negb ok || Nat.eqb id (length (socks s)) then locked ps ce x pend cr e (AHop ok r) else None
       end
-  | EC k err => locked ps ce s pend cr e AClose
-  | ES k kd v => locked ps ce s pend cr e (ASet kd v)
-  | EW k p d => match pend with Some _ => None | None => locked ps ce s pend cr e (AWrite d) end
-  | EA k p => match unlocked_step ps ce s (AArrive k p) [] with Some s' => Some (s', pend, cw, cr) | None => None end
-  | ET k => match unlocked_step ps ce s (AArriveTimeout k) [] with Some s' => Some (s', pend, cw, cr) | None => None end
-  | ED k =>
-      if negb (sock_open (socks s) k) ||
-         match pend with Some (a, _) => negb (sock_open (socks (fst (step ps ce s a))) k) | None => false end
-      then Some rs else None
+  | EC k err => locked ps ce x pend cr e AClose
+  | ES k kd v => locked ps ce x pend cr e (ASet kd v)
+  | EW k p d => match pend with Some _ => None | None => locked ps ce x pend cr e (AWrite d) end
+  | EA k p =>
+      (* one turn of socket k's receiver: it must be running *)
+      if recv_alive x k then Some (fst (xstep ps ce x (XRecv k (RData p))), pend, cw, cr) else None
+  | ET k =>
+      if recv_alive x k then Some (fst (xstep ps ce x (XRecv k RTimeoutErr)), pend, cw, cr) else None
+  | ED k => if closed_or_closing ps ce s pend k then Some rs else None
+  | EX k =>
+      (* the fake sockets fail permanently only once closed; a receiver exits once *)
+      if closed_or_closing ps ce s pend k && recv_alive x k
+      then Some (fst (xstep ps ce x (XRecv k RPermErr)), pend, cw, cr) else None
+  | EN k =>
+      (* nobody reads socket k although the system is at rest: impossible for a running receiver of an
+         open socket unless it is parked in a send on a full queue *)
+      if recv_alive x k && sock_open (socks s) k && (length (queue s) <? packetQueueSize)%nat then None else Some rs
   | ERS rid =>
       (* the call's closed-first check happens after this entry; placing it here when the conn is
          still open is one of the schedules of the LTS and leaves both later outcomes possible *)
       if closed s then
-        if cw then Some (with_armed s (rid :: armed s), pend, cw, cr)   (* [AReadBegin rid] scheduled before [AClose] *)
+        if cw then Some (reb x (with_armed s (rid :: armed s)), pend, cw, cr)   (* [AReadBegin rid] scheduled before [AClose] *)
         else Some rs
-      else match unlocked_step ps ce s (AReadBegin rid) [] with Some s' => Some (s', pend, cw, cr) | None => None end
+      else match unlocked_step ps ce x (AReadBegin rid) [] with Some x' => Some (x', pend, cw, cr) | None => None end
   | ER rid r =>
       let cw' := cw && negb (ret_eqb r RClosed) in
       if existsb (Nat.eqb rid) (armed s)
-      then match unlocked_step ps ce s (AReadSelect rid (ret_eqb r RClosed)) [ORet r] with
-           | Some s' => Some (s', pend, cw', cr) | None => None end
-      else match unlocked_step ps ce s (AReadBegin rid) [ORet r] with
-           | Some s' => Some (s', pend, cw', cr) | None => None end
+      then match unlocked_step ps ce x (AReadSelect rid (ret_eqb r RClosed)) [ORet r] with
+           | Some x' => Some (x', pend, cw', cr) | None => None end
+      else match unlocked_step ps ce x (AReadBegin rid) [ORet r] with
+           | Some x' => Some (x', pend, cw', cr) | None => None end
   | EWC =>
       (* WriteTo found the conn closed (accepted only if the model's conn is closed) *)
-      match unlocked_step ps ce s (AWrite 0) [ORet RClosed] with Some s' => Some (s', pend, false, cr) | None => None end
+      match unlocked_step ps ce x (AWrite 0) [ORet RClosed] with Some x' => Some (x', pend, false, cr) | None => None end
   | ESN p c i cl q no =>
       match pend with
       | Some _ => None
@@ -200,17 +237,17 @@ Definition rstep (ps : list N) (ce : nat -> bool) (rs : rstate) (e : ev) : optio
           if opt_nat_eqb p (prev s) && Nat.eqb c (cur s) && Nat.eqb i (idx s) && Bool.eqb cl (closed s) &&
              match q with Some n => Nat.eqb n (length (queue s)) | None => true end &&
              Nat.eqb no (count_open (socks s))
-          then Some (s, None, false, cr) else None
+          then Some (x, None, false, cr) else None
       end
   | EHN =>
       (* a hop that found the conn closed: no boundary call at all *)
       if closed s then
-        match step ps ce s (AHop true 0) with (s', []) => Some (s', pend, false, cr) | _ => None end
+        match xstep ps ce x (XAct (AHop true 0)) with (x', []) => Some (x', pend, false, cr) | _ => None end
       else None
   | ECL2 =>
       (* a Close that found the conn closed *)
-      match unlocked_step ps ce s AClose [ORet RNil] with
-      | Some s' => if closed s then Some (s', pend, false, cr) else None
+      match unlocked_step ps ce x AClose [ORet RNil] with
+      | Some x' => if closed s then Some (x', pend, false, cr) else None
       | None => None end
   | ECR err =>
       (* a Close has returned, so the conn is closed.  Either it is the Close that did the closing: the value
@@ -220,19 +257,48 @@ Definition rstep (ps : list N) (ce : nat -> bool) (rs : rstate) (e : ev) : optio
       else
         let r := if err then RSockErr else RNil in
         match cr with
-        | Some r0 => if ret_eqb r0 r then Some (s, pend, false, None)
-                     else match unlocked_step ps ce s AClose [ORet r] with
-                          | Some s' => Some (s', pend, false, cr) | None => None end
-        | None => match unlocked_step ps ce s AClose [ORet r] with
-                  | Some s' => Some (s', pend, false, cr) | None => None end
+        | Some r0 => if ret_eqb r0 r then Some (x, pend, false, None)
+                     else match unlocked_step ps ce x AClose [ORet r] with
+                          | Some x' => Some (x', pend, false, cr) | None => None end
+        | None => match unlocked_step ps ce x AClose [ORet r] with
+                  | Some x' => Some (x', pend, false, cr) | None => None end
         end
+  | EAs _ _ _ | ERs _ _ _ => None                     (* expanded by [rstep_x] *)
+  end.
+
+Fixpoint rep_arrivals (ps : list N) (ce : nat -> bool) (rs : rstate) (k : nat) (p : N) (n : nat) : option rstate :=
+  match n with
+  | O => Some rs
+  | S n' => match rstep ps ce rs (EA k p) with
+            | Some rs' => rep_arrivals ps ce rs' k (p + 1) n'
+            | None => None
+            end
+  end.
+
+Fixpoint rep_reads (ps : list N) (ce : nat -> bool) (rs : rstate) (rid : nat) (p : N) (n : nat) : option rstate :=
+  match n with
+  | O => Some rs
+  | S n' => match rstep ps ce rs (ERS rid) with
+            | Some rs1 => match rstep ps ce rs1 (ER rid (RPkt p)) with
+                          | Some rs2 => rep_reads ps ce rs2 (S rid) (p + 1) n'
+                          | None => None
+                          end
+            | None => None
+            end
+  end.
+
+Definition rstep_x (ps : list N) (ce : nat -> bool) (rs : rstate) (e : ev) : option rstate :=
+  match e with
+  | EAs k p n => rep_arrivals ps ce rs k p n
+  | ERs rid p n => rep_reads ps ce rs rid p n
+  | _ => rstep ps ce rs e
   end.
 
 (* returns the index of the first rejected event (Some i) or the final state *)
 Fixpoint replay (ps : list N) (ce : nat -> bool) (rs : rstate) (i : nat) (l : list ev) : rstate + nat :=
   match l with
   | [] => inl rs
-  | e :: t => match rstep ps ce rs e with
+  | e :: t => match rstep_x ps ce rs e with
               | Some rs' => replay ps ce rs' (S i) t
               | None => inr i
               end
@@ -245,6 +311,13 @@ Fixpoint census_eqb (a : list sock) (b : list (bool * N)) : bool :=
   | _, _ => false
   end.
 
+Fixpoint recv_census_ok (al : list bool) (l : list sock) : bool :=
+  match al, l with
+  | [], [] => true
+  | a :: al', x :: l' => (negb a || s_open x) && recv_census_ok al' l'
+  | _, _ => false
+  end.
+
 Definition ce_of (cerrs : list nat) (k : nat) : bool := existsb (Nat.eqb k) cerrs.
 
 Definition hop_check (expr : list byte) (ctor_ok : bool) (r0 : nat) (cerrs : list nat) (evs : list ev)
@@ -252,10 +325,12 @@ Definition hop_check (expr : list byte) (ctor_ok : bool) (r0 : nat) (cerrs : lis
   match hop_ports expr with
   | None => false
   | Some ps =>
-      match init ps ctor_ok r0 with
-      | Ok s0 =>
-          match replay ps (ce_of cerrs) (s0, None, false, None) 0 evs with
-          | inl (s, None, _, None) => census_eqb (socks s) census    (* no section and no return value left open *)
+      match xinit ps ctor_ok r0 with
+      | Ok x0 =>
+          match replay ps (ce_of cerrs) (x0, None, false, None) 0 evs with
+          | inl (x, None, _, None) =>                  (* no section and no return value left open *)
+              census_eqb (socks (base x)) census &&
+              recv_census_ok (alive x) (socks (base x))   (* the receiver of every closed socket has exited (its X) *)
           | _ => false
           end
       | Err _ => negb ctor_ok && match evs, census with [], [] => true | _, _ => false end
@@ -267,8 +342,8 @@ Definition hop_check (expr : list byte) (ctor_ok : bool) (r0 : nat) (cerrs : lis
 Definition hop_reject_at (expr : list byte) (ctor_ok : bool) (r0 : nat) (cerrs : list nat) (evs : list ev) : option nat :=
   match hop_ports expr with
   | None => Some O
-  | Some ps => match init ps ctor_ok r0 with
-               | Ok s0 => match replay ps (ce_of cerrs) (s0, None, false, None) 0 evs with inr i => Some i | inl _ => None end
+  | Some ps => match xinit ps ctor_ok r0 with
+               | Ok x0 => match replay ps (ce_of cerrs) (x0, None, false, None) 0 evs with inr i => Some i | inl _ => None end
                | _ => None
                end
   end.
@@ -311,8 +386,8 @@ Definition mismatches (l : list case) : list nat := mism_from check 0 l.
    records while the conn is still open: rejected. *)
 Example accept_late_returns_inside_a_section :
   hop_check [x34;x34;x33] true 0%nat []
-    [EL true 1%nat 0%nat; EC 0%nat false; EC 1%nat false;
-     ES 0%nat SDL 0%Z; EWC; ECL2; EHN; ECR false; ES 1%nat SDL 0%Z]
+    [EL true 1%nat 0%nat; EC 0%nat false; EX 0%nat; EC 1%nat false;
+     ES 0%nat SDL 0%Z; EWC; EX 1%nat; ECL2; EHN; ECR false; ES 1%nat SDL 0%Z]
     [(false, 1); (false, 1)] = true.
 Proof. vm_compute. reflexivity. Qed.
 
@@ -323,7 +398,7 @@ Example reject_closed_returns_on_an_open_conn :
 Proof. vm_compute. reflexivity. Qed.
 
 Example reject_section_with_a_missing_or_foreign_record :
-  map (fun l => hop_check [x34;x34;x33] true 0%nat [] (EL true 1%nat 0%nat :: EC 0%nat false :: EC 1%nat false :: l ++ [ECR false])
+  map (fun l => hop_check [x34;x34;x33] true 0%nat [] (EL true 1%nat 0%nat :: EC 0%nat false :: EC 1%nat false :: l ++ [ECR false; EX 1%nat; EX 0%nat])
                           [(false, 1); (false, 1)])
       [[ES 0%nat SDL 0%Z; EWC]; [ES 0%nat SDL 0%Z; EWC; ES 1%nat SRDL 0%Z];
        [ES 0%nat SDL 0%Z; EWC; EW 1%nat 443 0]; [ES 0%nat SDL 0%Z; EWC; ES 1%nat SDL 0%Z]]
@@ -333,7 +408,7 @@ Proof. vm_compute. reflexivity. Qed.
 (* closing window: a ReadFrom started right after Close's last socket call may still get a queued
    packet; once anything shows that Close is over, it must return closed *)
 Example closing_window :
-  map (fun l => hop_check [x34;x34;x33] true 0%nat [] (EA 0%nat 7 :: EC 0%nat false :: l ++ [ECR false]) [(false, 1)])
+  map (fun l => hop_check [x34;x34;x33] true 0%nat [] (EA 0%nat 7 :: EC 0%nat false :: EX 0%nat :: l ++ [ECR false]) [(false, 1)])
       [[ERS 0%nat; ER 0%nat (RPkt 7)];
        [ERS 0%nat; ER 0%nat RClosed];
        [EWC; ERS 0%nat; ER 0%nat (RPkt 7)];
@@ -348,7 +423,7 @@ Proof. vm_compute. reflexivity. Qed.
    failing socket (no second C record) is rejected; a record that disagrees with the script is
    rejected *)
 Example close_faults :
-  map (fun cl => hop_check [x34;x34;x33] true 0%nat (fst cl) (EL true 1%nat 0%nat :: snd cl) [(false, 1); (false, 1)])
+  map (fun cl => hop_check [x34;x34;x33] true 0%nat (fst cl) (EL true 1%nat 0%nat :: snd cl ++ [EX 0%nat; EX 1%nat]) [(false, 1); (false, 1)])
       [([1%nat], [EC 0%nat false; EC 1%nat true; ECR true]);
        ([1%nat], [EC 0%nat false; EC 1%nat true; ECR false]);
        ([0%nat], [EC 0%nat true; EC 1%nat false; ECR false]);
@@ -362,3 +437,31 @@ Example close_faults :
        ([], [EC 0%nat false; EC 1%nat false; ECR false; EHN; EWC])]
   = [true; false; true; false; false; true; false; false; false; false; true].
 Proof. vm_compute. reflexivity. Qed.
+
+(* receivers (ports "443"; [fill n] = n datagrams on socket 0 taken by its receiver, [reads n] = n
+   ReadFrom calls returning them).  Socket 0 stays open until the final Close.
+   1 the queue overflows (three datagrams dropped), is drained, a later datagram on the same socket
+     is taken and read: accepted;
+   2 the same, but after the drain a datagram sits in the open socket and nobody takes it: rejected
+     (the receiver of an open socket never stops; an overflow costs only the packets that met it);
+   3 nobody takes it while the queue is still full: accepted (a receiver may be parked in a send);
+   4 a receiver that exits while its socket is open: rejected;  5 a datagram taken by a receiver
+     that has exited: rejected;  6 a closed socket whose receiver never exits: rejected;
+   7 nobody reads the previous socket after a hop (queue empty): rejected. *)
+Definition fill (n : nat) : ev := EAs 0%nat 0 n.
+Definition reads (n : nat) : ev := ERs 0%nat 0 n.
+Definition fin0 : list ev := [EC 0%nat false; EX 0%nat; ECR false].
+Example receivers :
+  map (fun l => hop_check [x34;x34;x33] true 0%nat [] l [(false, 1)])
+      [[fill (packetQueueSize + 3); reads packetQueueSize; EA 0%nat 5000; ERS 5000%nat; ER 5000%nat (RPkt 5000)] ++ fin0;
+       [fill (packetQueueSize + 3); reads packetQueueSize; EN 0%nat] ++ fin0;
+       [fill (packetQueueSize + 3); EN 0%nat; reads packetQueueSize] ++ fin0;
+       [fill 2; EX 0%nat; EC 0%nat false; ECR false];
+       [EC 0%nat false; EX 0%nat; EA 0%nat 1; ECR false];
+       [fill 2; EC 0%nat false; ECR false]]
+  = [true; false; true; false; false; false] /\
+  map (fun l => hop_check [x34;x34;x33] true 0%nat [] ([EL true 1%nat 0%nat] ++ l ++ [EC 0%nat false; EC 1%nat false; EX 0%nat; EX 1%nat; ECR false])
+                          [(false, 1); (false, 1)])
+      [[EN 0%nat]; [EN 1%nat]; [EA 0%nat 0; EA 1%nat 1]; [EN 2%nat]]
+  = [false; false; true; true].
+Proof. vm_compute. split; reflexivity. Qed.
